@@ -292,6 +292,17 @@ def run(chk):
                         mcv = r.choice(["OZz", "OH?", "OFx", "OAq", "OM?", "ZZZ", "\x01\x02\x03", "O\x00\x00", "oHx", "Ohx", "VZz", "VY?"])
                         if mcv[0] == "V" and "nosv" not in req:
                             mcv = "OZz"
+                        # an undeclared VALUE in a category the required model does declare (its table or switch knows the
+                        # category, not the value): the event catalogue lists no such event, so it is unknown
+                        req_models = [m for m in models if m[1] in req and chr(m[0]) != "O"]
+                        if req_models and r.chance(1, 2):
+                            m_ = r.choice(req_models)
+                            cats = sorted({c[1] for (c, _j, _a) in decl if ord(c[0]) == m_[0]})
+                            if cats:
+                                cat = r.choice(cats)
+                                free = [v for v in "z1Q~" if all(c != chr(m_[0]) + cat + v for (c, _j, _a) in decl)]
+                                if free:
+                                    mcv = chr(m_[0]) + cat + r.choice(free)
                         jobs.append({"k": "t%d_k%d_%d" % (k, ti, ei_), "cls": "unknown-event", "key": "unknown-event:" + mcv.encode("latin1").hex(), "threads": th,
                                      "obs": {ti: repl(trace.ev_bytes(mcv, e["clock"], e["payload"] if e["jumbo"] is None else b""))}, "expect": True})
                     n += 1
